@@ -270,6 +270,17 @@ def rule_record(run):
     ok = der._own.get("_cohdlstd_bitcount") == 5 and set(der._own.get("_cohdlstd_slice_map", {})) == {"a", "b"}
     run.ob(ok, "_make_serializable", file=rec.rel, line=rec.func("_make_serializable").node.lineno, detail="derived-after-base",
            expected="Derived gets its own layout (5 bits, fields a and b) although Base was serialised before", found=f"own bitcount {der._own.get('_cohdlstd_bitcount')} (inherited: {der.lookup('_cohdlstd_bitcount')[1]})")
+    # every entry point that relies on the cached layout must (re)establish it for ITS class: count_bits of a fresh
+    # derived class after the base was counted
+    der2 = ClassModel("Derived2", (base,), {"_cohdlstd_record_annotations": der_ann})
+    try:
+        pc = dict(p)
+        pc["_make_serializable"] = lambda c: Interp(rec, p).call_function("_make_serializable", c)
+        cnt = Interp(rec, pc).call_function("Record._count_bits_", der2)
+    except Reject as e:
+        cnt = f"rejected: {e}"
+    run.ob(cnt == 5, "Record._count_bits_", file=rec.rel, line=rec.func("Record._count_bits_").node.lineno, detail="derived-after-base",
+           expected="count_bits(Derived) == 5 although Base (2 bits) was counted before", found=str(cnt))
     # calling twice is idempotent
     Interp(rec, p).call_function("_make_serializable", der)
     run.ob(der._own.get("_cohdlstd_bitcount") == 5, "_make_serializable", file=rec.rel, line=rec.func("_make_serializable").node.lineno, detail="idempotent", expected="second call keeps the layout", found=str(der._own.get("_cohdlstd_bitcount")))
